@@ -29,6 +29,29 @@ class RxCtx(Ctx):
         """<ty as trait>::name with module-qualified names."""
         return self.body("<%s as %s>::%s" % (ty, trait, name))
 
+    def creator_root(self, path):
+        """The function (not a closure) in which the closure `path` comes to be - followed through closures that make
+        closures, and through helpers that were inlined (their closures are then made in the caller)."""
+        from .facts import strip_lt
+        def build():
+            made = {}
+            for b in self.f.bodies:
+                for blk in b.blocks:
+                    for st in blk["stmts"]:
+                        if st["k"] == "assign" and st["rv"].get("k") == "agg" and st["rv"].get("agg") == "closure":
+                            made.setdefault(strip_lt(st["rv"].get("def", "")), set()).add(b.path)
+            return made
+        made = self.cached(("closure-makers",), build)
+        seen = set()
+        cur = path
+        while "{closure" in cur and cur not in seen:
+            seen.add(cur)
+            ms = sorted(made.get(cur, ()))
+            if not ms:
+                return cur.split("::{closure")[0]
+            cur = ms[0]
+        return cur
+
     def api_reachable(self):
         return self.cached("api_reach", lambda: self.cg.reachable(self.roots))
 
